@@ -212,6 +212,8 @@ type HarnessRun struct {
 	noIfConv      bool
 	noSymRef      bool
 	assumeProven  bool
+	pool          *asyncPool
+	syncAsserts   bool
 	timeoutMS     int
 	workers       int
 	panicIsViolation bool
@@ -308,6 +310,9 @@ func (e *Engine) Explore(h *HarnessRun) {
 		return
 	}
 
+	if !h.syncAsserts {
+		h.pool = newAsyncPool(12, envOr("SYMGO_SOLVER", "z3-new"), h.timeoutMS)
+	}
 	var mu sync.Mutex
 	cond := sync.NewCond(&mu)
 	work := []workItem{{nil}}
@@ -404,6 +409,15 @@ func (e *Engine) Explore(h *HarnessRun) {
 		go func() { defer wg.Done(); worker() }()
 	}
 	wg.Wait()
+	if h.pool != nil {
+		h.pool.close()
+		res.Queries += h.pool.queries
+		res.Unsat += h.pool.nunsat
+		res.Sat += h.pool.nsat
+		res.UnknownQ += h.pool.nunknown
+		res.SolverS += h.pool.time.Seconds()
+		h.pool = nil
+	}
 	for k := range reached {
 		res.Reached = append(res.Reached, k)
 	}
@@ -449,6 +463,7 @@ func (m *Machine) runPath(fn *ssa.Function, prefix []int) (PathStatus, string, [
 	})
 	m.instrs += m.steps
 	status, msg := StOK, ""
+	nviol, nunk := m.collectAsync()
 	switch o := out.(type) {
 	case nil:
 	case pathEnd:
@@ -474,6 +489,14 @@ func (m *Machine) runPath(fn *ssa.Function, prefix []int) (PathStatus, string, [
 	default:
 		status, msg = StFault, fmt.Sprint(o)
 	}
+	if status == StOK || status == StAssumeFalse || status == StFPExc || status == StInfeasible {
+		if nviol > 0 {
+			status, msg = StViolation, "assertion(s) can be false"
+		} else if nunk > 0 {
+			status, msg = StUnknown, "solver unknown on assertion(s): "+strings.Join(m.unknownLabels, "; ")
+		}
+	}
+	m.unknownLabels = nil
 	m.solver.PopAll()
 	return status, msg, wit
 }
